@@ -759,3 +759,9 @@ def shrink(c):
             yield dict(c, wall_us=c["wall_us"] - c["wall_us"] % M)
         if "off_s" in c and c["off_s"]:
             yield dict(c, off_s=0)
+
+
+# functions of /repo whose executed-line coverage by this run is reported in the evidence
+ANCHORS = [('swh/model/model.py', 'Timestamp.*'),
+           ('swh/model/model.py', 'TimestampWithTimezone.*'),
+           ('swh/model/git_objects.py', 'format_date')]
